@@ -115,7 +115,8 @@ AtomsFor(sym) == CASE sym[Len(sym)] = "q" -> BDAtoms
                    [] SymType(sym) = "b" -> BoolAtoms [] SymType(sym) = "d" -> DateAtoms [] OTHER -> AnyAtoms
 
 ScalarSyms == {<<"id">>, <<"s">>, <<"n">>, <<"m">>, <<"f">>, <<"b">>, <<"t">>, <<"boss">>, <<"boss", "s">>, <<"boss", "n">>,
-               <<"boss", "boss", "s">>, <<"boss", "id">>, <<"tags", "k">>, <<"tags", "j">>, <<"tags", "zz">>, <<"boss", "tags", "k">>, <<"tags", "q">>, <<"tags", "zz", "y">>}
+               <<"boss", "boss", "s">>, <<"boss", "id">>, <<"tags", "k">>, <<"tags", "j">>, <<"tags", "zz">>, <<"boss", "tags", "k">>, <<"tags", "q">>, <<"tags", "zz", "y">>,
+               <<"lbl", "k">>, <<"lbl", "zz">>, <<"boss", "lbl", "k">>}
 SetSyms == {<<"roles">>, <<"peers">>, <<"boss", "roles">>, <<"peers", "s">>, <<"peers", "n">>, <<"peers", "roles">>,
             <<"peers", "boss">>, <<"peers", "boss", "s">>, <<"peers", "tags", "k">>, <<"peers", "peers">>, <<"boss", "peers">>,
             <<"places">>, <<"places", "s">>, <<"boss", "places">>, <<"boss", "places", "s">>, <<"peers", "places", "s">>, <<"boss", "boss", "places", "id">>}
@@ -193,7 +194,8 @@ ProbeQ == {Q([k |-> "atom", sym |-> <<"b">>, a |-> Cmp("eq", B(FALSE))]), Q([k |
 \* plain comparisons of set symbols: the engine must answer with an error or a query that evaluates without panicking
 AllAtoms == StrAtoms \cup NumAtoms \cup BoolAtoms \cup DateAtoms \cup AnyAtoms \cup BDAtoms
             \cup {Btw(neg, lo, hi) : neg \in BOOLEAN, lo \in {S(sA)}, hi \in {S(sB)}}
-MixSyms == ScalarSyms \cup SetSyms \cup {<<"createdAt">>, <<"nosuch">>, <<"tags">>, <<"boss", "nosuch">>}
+\* (blob: a symbol declared with a type the query language has no operations for)
+MixSyms == ScalarSyms \cup SetSyms \cup {<<"createdAt">>, <<"nosuch">>, <<"tags">>, <<"boss", "nosuch">>, <<"blob">>, <<"boss", "blob">>, <<"lbl">>}
 MixQ == {Q([k |-> w, sym |-> sym, a |-> a]) : w \in {"atom", "anyOf", "allOf"}, sym \in MixSyms, a \in AllAtoms}
         \cup {Q([k |-> "count", sym |-> sym, op |-> op, n |-> n]) : sym \in MixSyms, op \in {"eq", "lt"}, n \in {N(1), F2(3), S(sA), B(TRUE), D(1), Nil}}
         \cup {Q([k |-> "isEmpty", sym |-> sym]) : sym \in MixSyms} \cup {Q([k |-> "boolsym", sym |-> sym]) : sym \in MixSyms}
